@@ -1,0 +1,274 @@
+//! Snippet / error-rendering hooks (de/snippet.rs, de_error.rs, ring_reader.rs).
+//!
+//! Add-only wrappers with canonical (plain) argument and result types so the external harness
+//! can call each helper function by function. `mapping`: `None` = `LineMapping::Identity`,
+//! `Some(n)` = `LineMapping::Offset { start_line: n }`.
+use std::fmt;
+use std::io::Read;
+
+use annotate_snippets::Level;
+
+use crate::Location;
+use crate::de_error::Error;
+use crate::de_snipped as sn;
+use crate::de_snipped::verif_access as sa;
+use crate::localizer::DEFAULT_ENGLISH_LOCALIZER;
+use crate::ring_reader as rr;
+
+fn mapping_of(m: Option<usize>) -> sn::LineMapping {
+    match m {
+        None => sn::LineMapping::Identity,
+        Some(start_line) => sn::LineMapping::Offset { start_line },
+    }
+}
+
+/// `Location` with the given line/column and an unknown span (line 0 / column 0 is
+/// `Location::UNKNOWN`).
+pub fn location(line: u32, column: u32) -> Location {
+    Location::new(line as usize, column as usize)
+}
+
+pub fn sanitize(s: &str) -> String {
+    sn::sanitize_terminal_snippet_preserve_len(s.to_owned())
+}
+
+pub fn is_clean(s: &str) -> bool {
+    sn::is_terminal_snippet_clean(s)
+}
+
+pub fn line_starts(s: &str) -> Vec<usize> {
+    sa::line_starts(s)
+}
+
+pub fn col_to_byte(line: &str, col_1: usize) -> Option<usize> {
+    sa::col_to_byte_offset_in_line(line, col_1)
+}
+
+/// `line_col_to_byte_offset_with_starts(source, &line_starts(source), row_1, col_1)` (how every
+/// caller in the crate uses it).
+pub fn line_col_to_byte(source: &str, row_1: usize, col_1: usize) -> Option<usize> {
+    let starts = sa::line_starts(source);
+    sa::line_col_to_byte_offset_with_starts(source, &starts, row_1, col_1)
+}
+
+pub fn next_char_boundary(source: &str, start: usize) -> Option<usize> {
+    sa::next_char_boundary(source, start)
+}
+
+/// returns (rendered, crop.start_byte, crop.prefix_bytes)
+pub fn crop_line_by_cols(line: &str, left_col_1: usize, right_col_1: usize) -> (String, usize, usize) {
+    sa::crop_line_by_cols(line, left_col_1, right_col_1)
+}
+
+#[allow(clippy::too_many_arguments)]
+pub fn crop_window_text(
+    window_text: &str,
+    window_start_row: usize,
+    error_row: usize,
+    error_col: usize,
+    crop_radius: usize,
+    local_start: usize,
+    local_end: usize,
+) -> (String, usize, usize) {
+    sa::crop_window_text(
+        window_text,
+        window_start_row,
+        error_row,
+        error_col,
+        crop_radius,
+        local_start,
+        local_end,
+    )
+}
+
+pub fn crop_source_window(
+    text: &str,
+    line: u32,
+    column: u32,
+    mapping: Option<usize>,
+    crop_radius: usize,
+) -> (String, usize) {
+    let loc = location(line, column);
+    sn::crop_source_window(text, &loc, mapping_of(mapping), crop_radius)
+}
+
+struct WindowDisplay<'a> {
+    text: &'a str,
+    loc: Location,
+    start_line: usize,
+    msg: &'a str,
+    crop_radius: usize,
+}
+
+impl fmt::Display for WindowDisplay<'_> {
+    fn fmt(&self, f: &mut fmt::Formatter<'_>) -> fmt::Result {
+        sn::fmt_snippet_window_offset_or_fallback(
+            f,
+            &DEFAULT_ENGLISH_LOCALIZER,
+            &self.loc,
+            self.text,
+            self.start_line,
+            self.msg,
+            self.crop_radius,
+        )
+    }
+}
+
+/// The crate's own window renderer (`fmt_snippet_window_offset_or_fallback`), rendered to a
+/// string.
+pub fn fmt_window(
+    text: &str,
+    line: u32,
+    column: u32,
+    start_line: usize,
+    msg: &str,
+    crop_radius: usize,
+) -> String {
+    WindowDisplay {
+        text,
+        loc: location(line, column),
+        start_line,
+        msg,
+        crop_radius,
+    }
+    .to_string()
+}
+
+struct SnippetDisplay<'a> {
+    text: &'a str,
+    path: &'a str,
+    mapping: Option<usize>,
+    loc: Location,
+    msg: &'a str,
+    crop_radius: usize,
+}
+
+impl fmt::Display for SnippetDisplay<'_> {
+    fn fmt(&self, f: &mut fmt::Formatter<'_>) -> fmt::Result {
+        let mut ctx = sn::Snippet::new(self.text, self.path, self.crop_radius);
+        if let Some(start_line) = self.mapping {
+            ctx = ctx.with_offset(start_line);
+        }
+        ctx.fmt_or_fallback(
+            f,
+            Level::ERROR,
+            &DEFAULT_ENGLISH_LOCALIZER,
+            self.msg,
+            &self.loc,
+        )
+    }
+}
+
+/// `Snippet::fmt_or_fallback` (annotate-snippets renderer), rendered to a string.
+pub fn fmt_snippet(
+    text: &str,
+    path: &str,
+    mapping: Option<usize>,
+    line: u32,
+    column: u32,
+    msg: &str,
+    crop_radius: usize,
+) -> String {
+    SnippetDisplay {
+        text,
+        path,
+        mapping,
+        loc: location(line, column),
+        msg,
+        crop_radius,
+    }
+    .to_string()
+}
+
+/// `Error::Message { msg, location }` wrapped by `with_snippet` (`start_line = None`) or
+/// `with_snippet_offset` (`Some(n)`), exactly as the entry points do.
+pub fn message_error_with_snippet(
+    msg: &str,
+    line: u32,
+    column: u32,
+    text: &str,
+    start_line: Option<usize>,
+    crop_radius: usize,
+) -> Error {
+    let e = Error::Message {
+        msg: msg.to_owned(),
+        location: location(line, column),
+    };
+    match start_line {
+        None => e.with_snippet(text, crop_radius),
+        Some(n) => e.with_snippet_offset(text, n, crop_radius),
+    }
+}
+
+/// Regions `(text, start_line, end_line)` that `with_snippet` / `with_snippet_offset` store.
+pub fn snippet_regions(
+    line: u32,
+    column: u32,
+    text: &str,
+    start_line: Option<usize>,
+    crop_radius: usize,
+) -> Vec<(String, usize, usize)> {
+    match message_error_with_snippet("m", line, column, text, start_line, crop_radius) {
+        Error::WithSnippet { regions, .. } => regions
+            .into_iter()
+            .map(|r| (r.text, r.start_line, r.end_line))
+            .collect(),
+        _ => Vec::new(),
+    }
+}
+
+/// `trim_to_utf8_boundaries_with_line` (ring reader snapshot trimming).
+pub fn ring_trim(bytes: Vec<u8>, start_offset: u64, start_line: usize) -> (u64, usize, Vec<u8>) {
+    rr::verif_access::trim_to_utf8_boundaries_with_line(bytes, start_offset, start_line)
+}
+
+/// Reader that hands out at most `max_chunk` bytes per `read` call.
+struct ChunkReader<'a> {
+    data: &'a [u8],
+    pos: usize,
+    max_chunk: usize,
+}
+
+impl Read for ChunkReader<'_> {
+    fn read(&mut self, buf: &mut [u8]) -> std::io::Result<usize> {
+        let n = buf
+            .len()
+            .min(self.max_chunk.max(1))
+            .min(self.data.len() - self.pos);
+        buf[..n].copy_from_slice(&self.data[self.pos..self.pos + n]);
+        self.pos += n;
+        Ok(n)
+    }
+}
+
+/// Drive a real `RingReader` over `data`: the consumer reads `consume` bytes (in reads of at
+/// most `read_size` bytes, the inner reader returning at most `inner_chunk` bytes per call),
+/// then `get_recent()` is called. Returns `(start_offset, end_offset, start_line, bytes)`.
+pub fn ring_run(
+    data: &[u8],
+    consume: usize,
+    read_size: usize,
+    inner_chunk: usize,
+) -> Option<(u64, u64, usize, Vec<u8>)> {
+    let inner = ChunkReader {
+        data,
+        pos: 0,
+        max_chunk: inner_chunk,
+    };
+    let mut r = rr::RingReader::new(inner);
+    let mut left = consume;
+    let mut buf = vec![0u8; read_size.max(1)];
+    while left > 0 {
+        let want = left.min(buf.len());
+        let n = r.read(&mut buf[..want]).ok()?;
+        if n == 0 {
+            break;
+        }
+        left -= n;
+    }
+    let snap = r.get_recent().ok()?;
+    Some((snap.start_offset, snap.end_offset, snap.start_line, snap.bytes))
+}
+
+pub const RING_BUFFER_SIZE: usize = rr::RING_BUFFER_SIZE;
+pub const MAX_READ_AHEAD: usize = rr::MAX_READ_AHEAD;
